@@ -4,16 +4,16 @@ import FancyModel.Spec.Stage4
 Lemmas/Atomize2.lean, Proofs/C01h.lean)
 
 Stage S4 drops stage S3's demand on the delegated runs (group-free or linear) for the concatenation at the
-top of the pattern. Stage S5 drops it for every concatenation the compiler meets inside groups,
-alternations, repeats (bounded or not, greedy or lazy), look-AHEAD bodies, atomic groups and conditional
-branches. The body of a look-BEHIND stays at stage S3 (`s3ok`): `atomizeP` does not descend into it.
+top of the pattern. Stage S5 drops it for EVERY concatenation the compiler meets — inside groups,
+alternations, repeats (bounded or not, greedy or lazy), look-around bodies (ahead and behind), atomic groups
+and conditional branches.
 
 * `atomizeP br e hard` follows the compiler's decisions (`visit br e hard`, as `s3ok` does) and wraps every
   delegated run that owns capture groups and is not linear in an atomic group (`runA5`); the compiled code
   of `e` simulates the semantics of `atomizeP br e hard`;
 * `atzSlots br e hard`: the slots of the groups owned by the atomized runs;
 * `noRead U e`: no `\g`, `(?(g)…)` in `e` reads a slot of `U`;
-* `s5ok br e hard`: `s3ok` without the demand on the runs (outside look-behind bodies);
+* `s5ok br e hard`: `s3ok` without the demand on the runs;
 * `unref5OK br raw`: NOTHING in the whole raw tree reads a slot owned by an atomized run (the conservative
   choice: it covers everything that can execute after a run, loops and backtracking included; the runs
   themselves only WRITE their slots, which does not matter).
@@ -42,8 +42,7 @@ def atomizeP (br : Nat → Bool) : Expr → Bool → Expr
     | .alt es => .alt (atomizeAlts br es hard)
     | .group g e => .group g (atomizeP br e hard)
     | .repeat e lo hi gr => .repeat (atomizeP br e (if lo == 0 && hi == some 1 then hard else true)) lo hi gr
-    | .look e .ahead => .look (atomizeP br e false) .ahead
-    | .look e .aheadNeg => .look (atomizeP br e false) .aheadNeg
+    | .look e la => .look (atomizeP br e false) la
     | .atomic e => .atomic (atomizeP br e false)
     | .cond c y n => .cond (atomizeP br c hard) (atomizeP br y hard) (atomizeP br n hard)
     | e => e
@@ -70,8 +69,7 @@ def atzSlots (br : Nat → Bool) : Expr → Bool → List Nat
     | .alt es => atzSlotsAlts br es hard
     | .group _ e => atzSlots br e hard
     | .repeat e lo hi _ => atzSlots br e (if lo == 0 && hi == some 1 then hard else true)
-    | .look e .ahead => atzSlots br e false
-    | .look e .aheadNeg => atzSlots br e false
+    | .look e _ => atzSlots br e false
     | .atomic e => atzSlots br e false
     | .cond c y n => atzSlots br c hard ++ (atzSlots br y hard ++ atzSlots br n hard)
     | _ => []
@@ -119,8 +117,8 @@ def s5ok (br : Nat → Bool) : Expr → Bool → Bool
       (if lo == 0 && hi == some 1 then s5ok br e hard else s5ok br e true) && (hi != none || decide (0 < minSize e))
     | .look e .ahead => s5ok br e false && condFree e
     | .look e .aheadNeg => s5ok br e false
-    | .look e .behind => s3ok br e false && condFree e && noBareEndZ e
-    | .look e .behindNeg => s3ok br e false && noBareEndZ e
+    | .look e .behind => s5ok br e false && condFree e && noBareEndZ e
+    | .look e .behindNeg => s5ok br e false && noBareEndZ e
     | .backref _ => true
     | .atomic e => s5ok br e false && condFree e
     | .keepOut => true
